@@ -181,6 +181,59 @@ pub fn long_texts(thorough: bool) -> Vec<String> {
     v
 }
 
+/// Programs whose image ends exactly at, just below or just above the end of the RAM (238..=241
+/// bytes), built in six different ways, followed by every kind of line that emits no bytes
+/// (label, settings, .EQU, `.BYTE 0`, `.ORG` to the same address, comment) and optionally referring
+/// to a name that is only defined behind the last byte.
+pub fn exact_fit_texts() -> Vec<String> {
+    let mut v = vec![];
+    for n in [238usize, 239, 240, 241] {
+        for prefix in ["", " LD R0, L\n", " LD R1, K\n JR L\n"] {
+            let used = match prefix {
+                "" => 0,
+                " LD R0, L\n" => 3,
+                _ => 5,
+            };
+            let rest = n - used;
+            let fills: Vec<String> = vec![
+                format!(".ORG {}", n),
+                format!(".BYTE {}", rest),
+                vec!["NOP"; rest].join("\n"),
+                (0..rest).collect::<Vec<_>>().chunks(16).map(|c| format!(".DB {}", c.iter().map(|b| (b % 256).to_string()).collect::<Vec<_>>().join(", "))).collect::<Vec<_>>().join("\n"),
+                format!(".DW {}{}", vec!["0x1234"; rest / 2].join(","), if rest % 2 == 1 { "\n.DB 9" } else { "" }),
+                format!(".ORG {}\n LD R2, 7", n - 3),
+            ];
+            for fill in &fills {
+                for tail in ["", "L:", "L:\nM:", "*STACKSIZE 32", "*PROGRAMSIZE 7", ".BYTE 0", "  ; c", ".DB 1", "SAME-ORG", "L:\n*STACKSIZE 64\n*PROGRAMSIZE 9"] {
+                    let tail = if tail == "SAME-ORG" {
+                        if n > 255 {
+                            continue;
+                        }
+                        format!(".ORG {}", n)
+                    } else {
+                        tail.to_string()
+                    };
+                    // every referenced name gets a definition: in the tail if it is there, else up front
+                    let mut t = String::from("#! mrasm\n");
+                    let defines_l = tail.starts_with("L:");
+                    t.push_str(".EQU K 5\n");
+                    if !defines_l && prefix.contains(" L\n") {
+                        t.push_str(".EQU L 7\n");
+                    }
+                    t.push_str(prefix);
+                    t.push_str(fill);
+                    if !tail.is_empty() {
+                        t.push('\n');
+                        t.push_str(&tail);
+                    }
+                    v.push(t);
+                }
+            }
+        }
+    }
+    v
+}
+
 // ---------------------------------------------------------------------------------------------
 // C02
 
@@ -646,6 +699,22 @@ pub fn run(ctx: &Ctx, which: Which) -> Evidence {
             }
         }
         ev.class("enumerated:long-programs", texts.len() as u64);
+    }
+    // ---- images that end exactly at / next to the end of the RAM, followed by zero-size lines
+    {
+        let texts = exact_fit_texts();
+        let res = par_chunks(ctx.threads, texts.len(), |k| match check_text(&texts[k], None) {
+            Verdict::Fail(s, d) => Some((s, d)),
+            Verdict::Pass => None,
+        });
+        for (k, r) in res.into_iter().enumerate() {
+            ev.evaluations += 1;
+            ev.nontrivial(&(0xE4F1u32, k));
+            if let Some((s, d)) = r {
+                ev.violation("text", &s, d, json!({"text": texts[k], "class": "exact-fit"}));
+            }
+        }
+        ev.class("enumerated:exact-fit-images", texts.len() as u64);
     }
 
     // ---- generated parts
